@@ -17,13 +17,19 @@ impl Prop for C08 {
     const LEVEL: &'static str = "exploration";
     const STALL_IS_VIOLATION: bool = false;
     fn count(tier: Tier) -> u64 {
-        match tier {
-            Tier::Quick => 250_000,
-            Tier::Thorough => 15_000_000,
-        }
+        sweep_len(tier)
+            + match tier {
+                Tier::Quick => 250_000,
+                Tier::Thorough => 15_000_000,
+            }
     }
-    fn gen(seed: u64, _idx: u64, _tier: Tier) -> CorruptCase {
-        gen_case(seed)
+    fn gen(seed: u64, idx: u64, tier: Tier) -> CorruptCase {
+        // indices below sweep_len: systematic single-field enumeration; above: seeded campaign
+        if idx < sweep_len(tier) {
+            sweep_case(idx)
+        } else {
+            gen_case(seed)
+        }
     }
     fn eval(case: &CorruptCase, st: &mut Stats) -> Vec<Violation> {
         let mut cfg = SessionCfg::standard();
@@ -63,7 +69,7 @@ impl Prop for C08 {
         shrink_case(case)
     }
     fn rule() -> String {
-        "same storage-fault campaign as C06 (own case stream) with the counting allocator armed around every API call: largest single request <= 4 MiB + 64n, peak live bytes <= 16 MiB + 64n, cumulative <= 64 MiB + 512n (n = image length); requests up to 6 GiB are served (untouched pages) so the run continues and the site is recorded, larger ones abort the worker, which the supervisor reports; distinct_nontrivial = distinct (fault kind, box path:field, outcome class) triples".into()
+        "(systematic part) every located field of a fixed list of 17 seed images x 13 boundary values, one substitution per run (thorough: all 130 364 (image, field, value) triples; quick: the first 50 000); (seeded part) same storage-fault campaign as C06 (own case stream) with the counting allocator armed around every API call: largest single request <= 4 MiB + 64n, peak live bytes <= 16 MiB + 64n, cumulative <= 64 MiB + 512n (n = image length); requests up to 6 GiB are served (untouched pages) so the run continues and the site is recorded, larger ones abort the worker, which the supervisor reports; distinct_nontrivial = distinct (fault kind, box path:field, outcome class) triples".into()
     }
     fn assumptions() -> Vec<String> {
         vec![
